@@ -13,11 +13,11 @@ def units():
         opens = []
     if opens:
         decls = " ".join("ANY_EFFECT_ON_HANDLE (int %s (SF_PRIVATE *psf))" % o for o in opens)
-        U.append({"name": "close.psf_open_file", "props": ["C16", "C15", "C09"], "harness": "open_file.harness.c", "entry": "h_open_file", "enforce": "psf_open_file",
+        U.append({"name": "close.psf_open_file", "props": ["C16", "C15", "C09", "C03"], "harness": "open_file.harness.c", "entry": "h_open_file", "enforce": "psf_open_file",
                   "function": "sndfile.c:psf_open_file", "timeout": 900, "cbmc_flags": ["--object-bits", "11"], "defines": ["-DOPEN_FUNCTIONS=" + decls],
                   "replace": opens + ["psf_close", "sf_format_check", "psf_rand_int32", "psf_is_pipe", "psf_get_filelen", "psf_fseek", "psf_ftell", "guess_file_type",
-                                      "format_from_extension", "validate_psf", "save_header_info", "psf_log_SF_INFO", "validate_sfinfo", "sf_error_number"],
-                  "trusted": ["container open functions: any return value, any effect on the handle (frame contracts generated from the dispatch switch)",
+                                      "format_from_extension", "save_header_info", "psf_log_SF_INFO", "sf_error_number"],
+                  "trusted": ["container open functions: any return value, any effect on the handle except that bytewidth stays in 0..8 (frame contracts generated from the dispatch switch)",
                               "psf_close releases the handle (unit close.psf_close)", "E1 snprintf model"]})
     U.append({"name": "close.psf_close", "props": ["C16", "C19"], "harness": "close.harness.c", "entry": "h_psf_close", "dfcc": False,
               "function": "sndfile.c:psf_close", "cbmc_flags": ["--unwind", "5", "--memory-leak-check", "--object-bits", "9"],
